@@ -149,11 +149,15 @@ def _w(ws):
     return "[%s]" % ", ".join("@%d[%#x]=%#x" % (s, a, v) for a, s, v in ws)
 
 
+CPU_LIMIT = 10           # seconds of CPU time for one analysis of one graph (normal: < 0.1 s)
+MAX_HANGS_PER_SHARD = 2  # after that many non-terminating analyses a shard stops and counts what it did not run
+
+
 class AnalysisTimeout(Exception):
     pass
 
 
-def guarded(fn, cpu_seconds=30):
+def guarded(fn, cpu_seconds=None):
     """Runs fn(); an analysis still running after @cpu_seconds of CPU time of this process (normal: < 0.1 s) is
     reported as not terminating (the timer counts consumed CPU time, not wall-clock time)."""
     import signal
@@ -161,7 +165,7 @@ def guarded(fn, cpu_seconds=30):
     def onalarm(signum, frame):
         raise AnalysisTimeout()
     old = signal.signal(signal.SIGVTALRM, onalarm)
-    signal.setitimer(signal.ITIMER_VIRTUAL, cpu_seconds)
+    signal.setitimer(signal.ITIMER_VIRTUAL, cpu_seconds or CPU_LIMIT)
     try:
         return fn()
     finally:
@@ -183,7 +187,7 @@ def check_graph(n, shape_idx, body_idx, cond_idx, alphabet, conds):
         guarded(lambda: propagate_cst_expr(g.lifter, g.ircfg, g.head, g.lifter.arch.regs.regs_init))
     except AnalysisTimeout:
         info["raised"] += 1
-        return [violation("propagate_cst_expr:does-not-terminate:%s" % kind, "%s: propagate_cst_expr is still running after 30 s of CPU time" % desc, case)], info
+        return [violation("propagate_cst_expr:does-not-terminate:%s" % kind, "%s: propagate_cst_expr is still running after %d s of CPU time" % (desc, CPU_LIMIT), case)], info
     except Exception as e:
         info["raised"] += 1
         return [violation("propagate_cst_expr:raise:%s:%s" % (type(e).__name__, kind), "%s: propagate_cst_expr raised %r" % (desc, e), case)], info
@@ -198,6 +202,8 @@ def check_graph(n, shape_idx, body_idx, cond_idx, alphabet, conds):
 def check_x86(idx):
     from miasm.analysis.cst_propag import propagate_cst_expr
     from mc import x86funcs
+    import logging
+    logging.getLogger("cst_propag").setLevel(logging.ERROR)    # "Bad destination: @32[ESP_init]" of ret is expected
     name = x86funcs.FUNCS[idx][0]
     case = {"kind": "x86", "index": idx, "name": name}
     info = {"states": 0, "skipped_states": 0, "compared": 0, "runs_with_writes": 0, "changed": 0, "raised": 0}
@@ -210,7 +216,7 @@ def check_x86(idx):
         guarded(lambda: propagate_cst_expr(f.lifter, f.ircfg, x86funcs.BASE, f.lifter.arch.regs.regs_init))
     except AnalysisTimeout:
         info["raised"] += 1
-        return [violation("propagate_cst_expr:does-not-terminate:%s" % kind, "%s: propagate_cst_expr is still running after 30 s of CPU time" % desc, case)], info
+        return [violation("propagate_cst_expr:does-not-terminate:%s" % kind, "%s: propagate_cst_expr is still running after %d s of CPU time" % (desc, CPU_LIMIT), case)], info
     except Exception as e:
         info["raised"] += 1
         return [violation("propagate_cst_expr:raise:%s:%s" % (type(e).__name__, kind), "%s: propagate_cst_expr raised %r" % (desc, e), case)], info
@@ -246,6 +252,8 @@ def _shard(args):
     sigs = {}
     tot = {}
     sample = None
+    hangs = 0
+    stop = False
     for si in range(lo, hi):
         shape = shapes[si]
         if not irgen.shape_has_exit(shape):
@@ -265,6 +273,23 @@ def _shard(args):
                     sigs[x["sig"]] = sigs.get(x["sig"], 0) + 1
                     if sigs[x["sig"]] <= 2:
                         vs.append(x)
+                    if ":pipeline-does-not-terminate:" in x["sig"] or x["sig"].startswith("propagate_cst_expr:does-not-terminate"):
+                        hangs += 1
+                if hangs >= MAX_HANGS_PER_SHARD:
+                    stop = True
+                    break
+            if stop:
+                break
+        if stop:
+            break
+    planned = 0
+    for si in range(lo, hi):
+        if irgen.shape_has_exit(shapes[si]):
+            k = len(bl) ** n
+            for sx in shapes[si]:
+                k *= len(conds) if len(sx) == 2 else 1
+            planned += k
+    tot["not_run"] = planned - cnt
     return cnt, nt, vs, sample, sigs, tot
 
 
@@ -277,9 +302,9 @@ PLAN_T = [
     (1, 3, ALPHA_FULL, CONDS),
     (2, 2, ALPHA_MEM, CONDS),
     (2, 1, ALPHA_FULL, CONDS),
-    (3, 1, ALPHA_FULL, ["a"]),
-    (3, 1, ALPHA_SMALL, CONDS),
-    (4, 1, ["a=0", "@[sp+4]=b", "a=@[sp+4]"], ["a"]),
+    (3, 1, ALPHA_SMALL + ["@[sp+4]=a"], ["a"]),
+    (3, 1, ALPHA_TINY, CONDS),
+    (4, 1, ["@[sp+4]=b", "a=@[sp+4]"], ["a"]),
 ]
 
 
@@ -325,6 +350,7 @@ def run(ctx):
         "state_runs_compared": tot.get("compared", 0),
         "compared_runs_with_memory_writes": tot.get("runs_with_writes", 0),
         "x86_functions": nx86,
+        "graphs_not_run_after_repeated_non_termination": tot.get("not_run", 0),
         "violating_graphs_by_signature": sigcount,
         "samples": [r[3] for r in res if r[3]][:6],
         "exhaustive": True,
